@@ -136,13 +136,13 @@ def _build_atoms(K, closure):
     for phi in cl_list:
         Lang = sys.modules[phi.__module__]
 
-        if phi != Lang.Not(True) and phi != Lang.Bool(False):
+        if phi != Lang.Not(True):
             neg_phi = LNot(phi)
 
             A_tail = []
             if isinstance(phi, CTLS.Bool):
                 for atom in A:
-                    atom.add(phi)
+                    atom.add(phi if phi == Lang.Bool(True) else neg_phi)
             else:
                 if isinstance(phi, CTLS.AtomicProposition):
                     for atom in A:
@@ -185,9 +185,12 @@ def _build_atoms(K, closure):
                                 atom.add(phi)
                             else:
                                 if Lang.Not(Lang.X(phi)) not in atom:
-                                    A_tail.append( atom | {Lang.Not(Lang.X(phi))})
+                                    A_tail.append( atom | {Lang.Not(Lang.X(phi)),
+                                                           neg_phi})
                                     atom.add(phi)
                                     atom.add(Lang.X(phi))
+                                else:
+                                    atom.add(neg_phi)
                         else:
                             atom.add(neg_phi)
 
